@@ -150,6 +150,28 @@ class G:
                 m = r.choice([x for x in named if x.kind in ('scalar', 'bitfield')] or named)
                 if m.kind in ('scalar', 'bitfield'):
                     items.append('.%s = %s' % (m.name, self.member(m, depth)))   # override
+            if r.random() < 0.3:
+                # element designators followed by a string that initialises the whole array explicitly
+                # (length n-1 plus the NUL, or exactly n characters): every earlier element is overridden
+                ca = [x for x in named if x.kind == 'array' and len(x.dims) == 1 and getattr(x, 'agg', None) is None
+                      and x.ty in ('char', 'unsigned char', 'signed char') and x.dims[0] >= 2]
+                if ca:
+                    m = r.choice(ca)
+                    n = m.dims[0]
+                    for i in sorted(set([0, n - 1, r.randrange(n)])):
+                        items.append(".%s[%d] = '%s'" % (m.name, i, r.choice('xyzw')))
+                    L = r.choice([n - 1, n])
+                    items.append('.%s = "%s"' % (m.name, ''.join(r.choice('abcdef') for _ in range(L))))
+            if not self.static and r.random() < 0.3:
+                # member designators followed by a whole-struct expression for the same member
+                ag = [x for x in named if x.kind == 'agg' and x.agg.kw == 'struct' and not any(mm.kind in ('anon', 'flex') for mm in x.agg.members)]
+                if ag:
+                    m = r.choice(ag)
+                    leafs = [(p_, mm) for p_, mm in m.agg.paths() if mm.kind == 'scalar' and mm.ty not in ('void *', 'char *', 'int (*)(void)', 'long double')]
+                    if leafs:
+                        for p_, mm in leafs[:1] + leafs[-1:]:
+                            items.append('.%s.%s = %s' % (m.name, p_, self.scalar(mm.ty)))
+                        items.append('.%s = (%s)%s' % (m.name, m.agg.cname, self.agg(m.agg, depth + 1)))
         else:
             # nested designators
             paths = []
